@@ -189,8 +189,7 @@ Populate ==
     /\ phase = "init"
     /\ pre' \in Pres
     /\ fs' = WorldOf(pre')
-    /\ \E h \in HostileNames \cup {<<>>}, v \in HostileVar :
-         /\ (h = <<>>) = (HostileNames = {})
+    /\ \E h \in (IF HostileNames = {} THEN {<<>>} ELSE HostileNames), v \in HostileVar :
          /\ (h # <<>> /\ PlainSite(cfg)) => (Len(h) = 1 /\ v.hp = 0 /\ ~v.hd)
          /\ (h = <<>>) => (v.hp = 0 /\ ~v.hd)
          /\ plan' = Subst(plan, h, v)
